@@ -15,7 +15,11 @@ Theorem c10_source_guards :
   Extracted.handleFrame_table = [("lit:", "c.handleResponse"); ("const:xrpc.cancel", "c.cancelCtx");
      ("const:xrpc.ch.val", "c.handleChanMessage"); ("const:xrpc.ch.close", "c.handleChanClose");
      ("default", "c.handleCall")]%string /\
-  map (fun f => snd (fst (fst f))) Extracted.fields_frame = ["jsonrpc"; "id"; "meta"; "method"; "params"; "result"; "error"]%string.
+  map (fun f => snd (fst (fst f))) Extracted.fields_frame = ["jsonrpc"; "id"; "meta"; "method"; "params"; "result"; "error"]%string /\
+  (* other connections are unaffected: the executor's tables are fields of the connection, and the package has no mutable
+     package-level state a frame could reach (no function assigns, indexes into, deletes from or takes the address of a
+     package-level variable) *)
+  Extracted.package_state_mutations = [].
 Proof. repeat split; reflexivity. Qed.
 
 (* no byte string whatsoever, in any state of the connection tables, makes the frame executor panic *)
